@@ -94,6 +94,14 @@ def build(V, opts=None):
         wn.get_node('T1').bulk_coeff = -3.0e-6
         wn.get_node('T2').mixing_model = '2COMP'
         wn.get_node('T2').mixing_fraction = 0.4
+    for tn_, mm_ in (o.get('mixing') or {}).items():
+        # as the INP reader's [MIXING] section sets it: a MixType member
+        from wntr.epanet.util import MixType
+        wn.get_node(tn_).mixing_model = MixType[mm_]
+    for tn_, f_ in (o.get('mixfrac') or {}).items():
+        wn.get_node(tn_).mixing_fraction = f_          # concrete special values (0.0: an empty first compartment)
+    for pn_ in (o.get('nowrap') or ()):
+        wn.get_pattern(pn_).wrap = False               # a pattern that ends instead of repeating
     wn.get_node('T1').tag = 'tankTag'
     wn.add_pipe('P1', 'R1', 'J1', length=100.0, diameter=0.3, roughness=100.0, minor_loss=0.0)
     wn.add_pipe('P2', 'J1', 'J2', length=150.0, diameter=0.25, roughness=110.0, minor_loss=2.5, check_valve=True)
